@@ -122,6 +122,7 @@ namespace sim
     std::string render(const sqf::runtime::value& v, int depth = 0);
 
     // steps
+    void build_template();
     void run_plan();                 // executes g->plan, fills g->events
     [[noreturn]] void finish_and_exit(const char* truncated);
 
